@@ -139,8 +139,9 @@ def check_end(tr: Trace, obs: Any, close: tuple | None, ignore_after: float = IN
 
 
 def check_windows(tr: Trace, top: Any, specs: list[dict], optional_tail: int = 0, ignore_after: float = INF,
-                  src: str = "s", mapv: Callable[[Any], Any] = ident) -> list[tuple[str, str]]:
-    """specs[k] = {open_t, open_cause (idx | -1 | None), open_after (idx|None), elems [input idx], close}"""
+                  src: str = "s", mapv: Callable[[Any], Any] = ident, sequential: bool = False) -> list[tuple[str, str]]:
+    """specs[k] = {open_t, open_cause (idx | -1 | None), open_after (idx|None), elems [input idx], close}
+    sequential: the rule makes the windows non-overlapping (window k+1 starts when window k has been closed)"""
     probs: list[tuple[str, str]] = []
     opens = [r for r in top.recv if r[0] == "N" and r[3] < ignore_after]
     if len(top.children) < len(opens):
@@ -167,6 +168,11 @@ def check_windows(tr: Trace, top: Any, specs: list[dict], optional_tail: int = 0
         e = check_end(tr, child, spec["close"], ignore_after)
         if e is not None:
             probs.append(e)
+        if sequential and k + 1 < len(opens):
+            term = terminal_of(child, ignore_after)
+            if term is not None and not term[3] < opens[k + 1][3]:
+                probs.append(("next_window_opened_before_previous_closed",
+                              "%s: closed at t=%s only after window %d had been emitted (non-overlapping rule)" % (child.name, term[2], k + 1)))
     return probs
 
 
@@ -228,3 +234,19 @@ def windows_to_buffers(tr: Trace, specs: list[dict], mapv: Callable[[Any], Any] 
                     "order": s.get("close_order", 0), "why": c[4], "pre": pre})
     out.sort(key=lambda b: (b["order"], b["win"]))
     return out
+
+
+def check_subscribed(lab: Any, tr: Trace, wanted: list[tuple[str, int | None]], cat: str = "aux_not_subscribed") -> list[tuple[str, str]]:
+    """wanted = [(probe source name, input idx in whose interval it must be subscribed | None = any time)]"""
+    subs: dict[str, int] = {}
+    for e in lab.ev:
+        if e[2] == "sub" and e[3] not in subs:
+            subs[e[3]] = e[0]
+    probs = []
+    for name, idx in wanted:
+        if name not in subs:
+            probs.append((cat, "the sequence %s that governs the window/group was never subscribed" % name))
+        elif idx is not None and not tr.within(subs[name], idx):
+            probs.append((cat, "the sequence %s that governs the window/group was subscribed during input #%d, not when it opened (input #%d)" % (
+                name, tr.owner(subs[name]), idx)))
+    return probs
